@@ -141,10 +141,34 @@ pub fn addr_name(a: u8) -> String {
     NAMES[a as usize % NAMES.len()].to_string()
 }
 
+/// A log message saying `#<content>`. Level and source follow from the content (so that sends with
+/// equal content stay indistinguishable): the collector's contract does not depend on either, and
+/// the analyses do send debug, info and error logs from different sources for one address.
+fn log_of(content: u32) -> LogMessage {
+    let text = format!("#{content}");
+    let msg = match content % 3 {
+        0 => LogMessage::new_info(text),
+        1 => LogMessage::new_debug(text),
+        _ => LogMessage::new_error(text),
+    };
+    match (content / 3) % 3 {
+        0 => msg,
+        1 => msg.source("Pointer Inference"),
+        _ => msg.source("CWE119"),
+    }
+}
+
+/// A warning saying `#<content>`; the check name follows from the content (several checks do report
+/// the same address: the collector keeps one warning per reporting address whoever sent it).
+fn cwe_of(content: u32) -> CweWarning {
+    const NAMES: [&str; 3] = ["CWE0", "CWE476", "CWE119"];
+    CweWarning::new(NAMES[(content % 3) as usize], "0", format!("#{content}"))
+}
+
 fn to_msg(m: &Msg) -> LogThreadMsg {
     match &m.kind {
-        Kind::Gen => LogMessage::new_info(format!("#{}", m.content)).into(),
-        Kind::Loc(a) => LogMessage::new_info(format!("#{}", m.content))
+        Kind::Gen => log_of(m.content).into(),
+        Kind::Loc(a) => log_of(m.content)
             .location(Tid::blk_id_at_address(&addr_name(*a)).with_id_suffix(&format!("_{}", m.content)))
             .into(),
         Kind::Cwe(a, b) => {
@@ -152,9 +176,9 @@ fn to_msg(m: &Msg) -> LogThreadMsg {
             if let Some(b) = b {
                 ad.push(addr_name(*b));
             }
-            CweWarning::new("CWE0", "0", format!("#{}", m.content)).addresses(ad).into()
+            cwe_of(m.content).addresses(ad).into()
         }
-        Kind::CweNoAddr => CweWarning::new("CWE0", "0", format!("#{}", m.content)).into(),
+        Kind::CweNoAddr => cwe_of(m.content).into(),
     }
 }
 
